@@ -418,4 +418,301 @@ def dsFromRows (rows : List Row) : Option DSpace :=
   | none => none
   | some names => rowsToVars rows names 0
 
+/-! ### Attribute groups of an optimization problem (`gemseo/utils/hdf5.py`)
+
+`OptimizationProblem.to_hdf` writes the optimization description, the description of every
+function (`MDOFunction.to_dict`) and the solution (`OptimizationResult.to_dict`) as HDF groups of
+datasets through `store_h5data` / `store_attr_h5data`; `from_hdf` reads them back through
+`convert_h5_group_to_dict` and rebuilds the objects, statement after statement. -/
+
+/-- A Python value handed to the writers. -/
+inductive PyV where
+  | none
+  | str (s : String)
+  | strs (l : List String)   -- a list/tuple of strings (`input_names`, `output_names`)
+  | bool (b : Bool)
+  | int (n : Int)
+  | flt (r : Rat)
+  | nums (a : Arr)           -- a numeric `ndarray`
+  deriving Repr, DecidableEq
+
+/-- An HDF dataset as h5py returns it: a scalar string, a 1-D array of strings, a scalar number or
+    a numeric array. -/
+inductive DSet where
+  | sbytes (s : String)
+  | sarr (l : List String)
+  | bool (b : Bool)
+  | int (n : Int)
+  | flt (r : Rat)
+  | nums (a : Arr)
+  deriving Repr, DecidableEq
+
+/-- `len(array) == 0` for an array with at least one axis. -/
+def Arr.lenZero (a : Arr) : Bool :=
+  match a.shape with
+  | 0 :: _ => true
+  | _ => false
+
+/-- `store_h5data(group, value, name)`: `None` and the *empty* iterables are not written
+    (`value is None or (isinstance(value, Iterable) and not len(value))`) — the numbers `0`, `0.0`
+    and `False` are not iterables and ARE written; a `str` becomes a one-item array of bytes.
+    `none` = no dataset. -/
+def storeH5 : PyV → Option DSet
+  | .none => none
+  | .str s => if s = "" then none else some (.sarr [s])
+  | .strs l => if l = [] then none else some (.sarr l)
+  | .bool b => some (.bool b)
+  | .int n => some (.int n)
+  | .flt r => some (.flt r)
+  | .nums a => if a.lenZero then none else some (.nums a)
+
+/-- `store_attr_h5data` on one item of `obj.to_dict()`: a `str` is encoded to bytes first (and is
+    then stored as a *scalar* dataset), a non-numeric iterable becomes a list of bytes with a
+    variable-length string dtype, anything else goes to `store_h5data` unchanged. -/
+def storeAttr : PyV → Option DSet
+  | .str s => if s = "" then none else some (.sbytes s)
+  | v => storeH5 v
+
+/-- `convert_h5_group_to_dict` on one dataset: a scalar string is decoded; an array of strings
+    becomes a list of strings *whatever its size* (repaired: a one-item array used to be collapsed
+    to its item, see `readAttrCollapsing`). -/
+def readAttr : DSet → PyV
+  | .sbytes s => .str s
+  | .sarr l => .strs l
+  | .bool b => .bool b
+  | .int n => .int n
+  | .flt r => .flt r
+  | .nums a => .nums a
+
+/-- The conversion before the repair: `value[0] if value.size == 1 else value.tolist()`. -/
+def readAttrCollapsing : DSet → PyV
+  | .sarr [s] => .str s
+  | d => readAttr d
+
+/-- An HDF group of datasets. -/
+abbrev Group := List (String × DSet)
+
+/-- Writing a mapping with `store_attr_h5data`: the items that are not written leave no trace. -/
+def writeGroup (d : List (String × PyV)) : Group :=
+  d.filterMap (fun nv => (storeAttr nv.2).map (fun x => (nv.1, x)))
+
+def readGroupWith (rd : DSet → PyV) (g : Group) : List (String × PyV) :=
+  g.map (fun nd => (nd.1, rd nd.2))
+
+def readGroup (g : Group) : List (String × PyV) := readGroupWith readAttr g
+
+/-- The serialized attributes of an `MDOFunction` (`DICT_REPR_ATTR`). -/
+structure FuncDesc where
+  name : String
+  fType : String            -- "" (none), "obj", "eq", "ineq", "obs"
+  expr : String
+  inputNames : List String
+  dim : Nat
+  specialRepr : String
+  outputNames : List String
+  deriving Repr, DecidableEq
+
+/-- `MDOFunction.to_dict` (no attribute of a function is `None`). -/
+def funcToDict (f : FuncDesc) : List (String × PyV) :=
+  [("name", .str f.name), ("f_type", .str f.fType), ("expr", .str f.expr),
+   ("input_names", .strs f.inputNames), ("dim", .int f.dim),
+   ("special_repr", .str f.specialRepr), ("output_names", .strs f.outputNames)]
+
+/-- `list(value)` in the setters of `input_names`/`output_names`: a list stays a list, a *string*
+    is a sequence of one-character strings. -/
+def pyListOfNames : Option PyV → List String
+  | some (.strs l) => l
+  | some (.str s) => s.toList.map (fun c => String.singleton c)
+  | _ => []
+
+def pyStr : Option PyV → String
+  | some (.str s) => s
+  | _ => ""
+
+def pyNat : Option PyV → Nat
+  | some (.int n) => n.toNat
+  | _ => 0
+
+/-- `MDOFunction.init_from_dict_repr(**attributes)`: `name` is required (`TypeError` ⇒ `none`),
+    the other attributes have defaults (`""`, `()`, `0`). -/
+def funcFromDict (d : List (String × PyV)) : Option FuncDesc :=
+  match alook "name" d with
+  | some (.str n) =>
+    some { name := n, fType := pyStr (alook "f_type" d), expr := pyStr (alook "expr" d),
+           inputNames := pyListOfNames (alook "input_names" d), dim := pyNat (alook "dim" d),
+           specialRepr := pyStr (alook "special_repr" d),
+           outputNames := pyListOfNames (alook "output_names" d) }
+  | _ => none
+
+/-- What `to_hdf` writes about a problem besides its database and design space. -/
+structure PbDesc where
+  minimize : Bool
+  isLinear : Bool
+  diffMethod : String
+  diffStep : Rat
+  ineqTol : Rat
+  eqTol : Rat
+  objective : FuncDesc
+  constraints : List FuncDesc
+  observables : List FuncDesc
+  solution : Option (List (String × PyV))   -- `OptimizationResult.to_dict()` without the mappings
+  deriving Repr, DecidableEq
+
+/-- The groups of the problem in the file (`constraints`/`observables` track the creation order). -/
+structure PbFile where
+  optDescr : Group
+  objective : Group
+  constraints : List (String × Group)
+  observables : List (String × Group)
+  solution : Option Group
+  deriving Repr, DecidableEq
+
+/-- The `opt_description` group: every attribute goes to `store_h5data` directly. -/
+def writeOptDescr (p : PbDesc) : Group :=
+  [("minimize_objective", PyV.bool p.minimize), ("differentiation_step", .flt p.diffStep),
+   ("differentiation_method", .str p.diffMethod), ("is_linear", .bool p.isLinear),
+   ("ineq_tolerance", .flt p.ineqTol), ("eq_tolerance", .flt p.eqTol)].filterMap
+    (fun nv => (storeH5 nv.2).map (fun x => (nv.1, x)))
+
+/-- `function_group.require_group(function.name)` then `store_attr_h5data`: writing a second
+    function under an existing name raises (`create_dataset` on an existing member) ⇒ `none`. -/
+def writeFuncs : List FuncDesc → List (String × Group) → Option (List (String × Group))
+  | [], acc => some acc
+  | f :: t, acc =>
+    match alook f.name acc with
+    | some _ => none
+    | none => writeFuncs t (acc ++ [(f.name, writeGroup (funcToDict f))])
+
+/-- `OptimizationProblem.to_hdf` (`append=False`). -/
+def pbToHdf (p : PbDesc) : Option PbFile :=
+  match writeFuncs p.constraints [], writeFuncs p.observables [] with
+  | some cs, some os =>
+    some { optDescr := writeOptDescr p, objective := writeGroup (funcToDict p.objective),
+           constraints := cs, observables := os, solution := p.solution.map writeGroup }
+  | _, _ => none
+
+/-- The problem `from_hdf` starts from: `OptimizationProblem(design_space, database=database)`
+    (`is_linear=True`, minimization, default differentiation and tolerances, no function). -/
+def pbBlank (obj : FuncDesc) : PbDesc :=
+  { minimize := true, isLinear := true, diffMethod := "user", diffStep := 1 / 10000000,
+    ineqTol := 1 / 10000, eqTol := 1 / 100, objective := obj, constraints := [], observables := [],
+    solution := none }
+
+/-- The setter `problem.objective = function` with a function that is not an
+    `MDOLinearFunction` (a reloaded function never is): the linearity flag is reset and the
+    function becomes an objective. -/
+def setObjective (p : PbDesc) (f : FuncDesc) : PbDesc :=
+  { p with isLinear := false, objective := { f with fType := "obj" } }
+
+/-- One pass of the loop over the items of `opt_description`: a one-item array of bytes is
+    decoded (`val[0].decode()`), then the attribute is set (the tolerances on
+    `problem.tolerances`, `minimize_objective` and `is_linear` on the private attributes — no
+    setter runs —, `pb_type` is the legacy spelling of `is_linear`). -/
+def setDescrAttr (p : PbDesc) (name : String) (d : DSet) : PbDesc :=
+  let v : PyV := match d with
+    | .sarr (s :: _) => .str s
+    | d => readAttr d
+  match name, v with
+  | "minimize_objective", .bool b => { p with minimize := b }
+  | "is_linear", .bool b => { p with isLinear := b }
+  | "pb_type", .str s => { p with isLinear := s == "linear" }
+  | "ineq_tolerance", .flt r => { p with ineqTol := r }
+  | "eq_tolerance", .flt r => { p with eqTol := r }
+  | "differentiation_method", .str s => { p with diffMethod := s }
+  | "differentiation_step", .flt r => { p with diffStep := r }
+  | _, _ => p
+
+def setDescr (p : PbDesc) (g : Group) : PbDesc :=
+  g.foldl (fun q nd => setDescrAttr q nd.1 nd.2) p
+
+/-- All the functions of a group, in the order of the group. -/
+def readFuncs (gs : List (String × Group)) : Option (List FuncDesc) :=
+  optAll (gs.map (fun ng => funcFromDict (readGroup ng.2)))
+
+/-- `OptimizationProblem.from_hdf`, statement after statement: new problem; solution;
+    `problem.objective = objective` (setter); loop over `opt_description`; constraints and
+    observables appended in the order of their groups. -/
+def pbFromHdf (f : PbFile) : Option PbDesc :=
+  match funcFromDict (readGroup f.objective), readFuncs f.constraints, readFuncs f.observables with
+  | some obj, some cs, some os =>
+    let p0 := { pbBlank obj with solution := f.solution.map readGroup }
+    let p1 := setObjective p0 obj
+    let p2 := setDescr p1 f.optDescr
+    some { p2 with constraints := cs, observables := os }
+  | _, _, _ => none
+
+/-- The statement order of a plausible rewrite ("solution, description, then all the
+    functions"): the objective setter runs AFTER the description loop. -/
+def pbFromHdfObjectiveLast (f : PbFile) : Option PbDesc :=
+  match funcFromDict (readGroup f.objective), readFuncs f.constraints, readFuncs f.observables with
+  | some obj, some cs, some os =>
+    let p0 := { pbBlank obj with solution := f.solution.map readGroup }
+    let p1 := setDescr p0 f.optDescr
+    let p2 := setObjective p1 obj
+    some { p2 with constraints := cs, observables := os }
+  | _, _, _ => none
+
+/-! ### Sparse Jacobian blocks of an HDF5 cache (`_hdf5_file_singleton.py`)
+
+`__write_sparse_array` converts the block to CSR (`value.tocsr()`) and writes the stored
+coefficients as the dataset and `indices`, `indptr`, `shape` as attributes; `__read_sparse_array`
+builds `csr_array((data, indices, indptr), shape)`. -/
+
+/-- A dense matrix: its rows. -/
+abbrev Mat := List (List Rat)
+
+/-- The stored entries (column, value) of a row, from column `j` on: the non-zero coefficients
+    in column order. -/
+def rowNz : Nat → List Rat → List (Nat × Rat)
+  | _, [] => []
+  | j, v :: t => if v = 0 then rowNz (j + 1) t else (j, v) :: rowNz (j + 1) t
+
+/-- `indptr` of the rows, starting at offset `s`. -/
+def indptrFrom : Nat → Mat → List Nat
+  | s, [] => [s]
+  | s, r :: t => s :: indptrFrom (s + (rowNz 0 r).length) t
+
+/-- The dataset and attributes of a sparse block. -/
+structure CsrFile where
+  data : List Rat
+  indices : List Nat
+  indptr : List Nat
+  shape : Nat × Nat
+  deriving Repr, DecidableEq
+
+/-- `value.tocsr()` of a container holding the matrix `m` (canonical: sorted column indices, no
+    explicit zero, no duplicate), then the four pieces written to the file. -/
+def writeSparse (nrows ncols : Nat) (m : Mat) : CsrFile :=
+  let ents := (m.map (rowNz 0)).flatten
+  { data := ents.map (·.2), indices := ents.map (·.1), indptr := indptrFrom 0 m,
+    shape := (nrows, ncols) }
+
+/-- The coefficient of column `j` in a list of stored entries (duplicates are summed, as SciPy
+    does when the array is densified). -/
+def entryAt (j : Nat) (ents : List (Nat × Rat)) : Rat :=
+  (ents.filter (fun e => e.1 == j)).foldr (fun e a => e.2 + a) 0
+
+/-- The dense row of the columns `k, k+1, …, k+n-1`. -/
+def scatterFrom (ents : List (Nat × Rat)) : Nat → Nat → List Rat
+  | _, 0 => []
+  | k, n + 1 => entryAt k ents :: scatterFrom ents (k + 1) n
+
+/-- The rows delimited by consecutive `indptr` values. -/
+def csrRows (ncols : Nat) (ents : List (Nat × Rat)) : List Nat → Mat
+  | a :: b :: t => scatterFrom ((ents.drop a).take (b - a)) 0 ncols :: csrRows ncols ents (b :: t)
+  | _ => []
+
+/-- `csr_array((data, indices, indptr), shape)` densified. -/
+def readSparse (f : CsrFile) : Mat :=
+  csrRows f.shape.2 (f.indices.zip f.data) f.indptr
+
+/-- Transposition of a matrix with `ncols` columns. -/
+def transposeM (ncols : Nat) (m : Mat) : Mat :=
+  (List.range ncols).map (fun j => m.map (fun r => r.getD j 0))
+
+/-- What a writer that keeps a column-compressed (CSC) container as it is would put in the file:
+    the compressed triplet of the *columns* under the original shape. -/
+def writeCscAsIs (nrows ncols : Nat) (m : Mat) : CsrFile :=
+  { writeSparse ncols nrows (transposeM ncols m) with shape := (nrows, ncols) }
+
 end GV.C11
